@@ -79,7 +79,10 @@ pub struct FaultCtx<'a> {
     pub others: &'a [Message],
 }
 
-pub const LOGICAL_KINDS: [&str; 31] = [
+pub const LOGICAL_KINDS: [&str; 34] = [
+    "method-case",
+    "hdr-space-tab",
+    "date-reoffset",
     "date-leap-second",
     "method",
     "path-byte",
@@ -178,6 +181,82 @@ pub fn apply_logical(kind: &'static str, m: &mut Message, cx: &FaultCtx, t: &mut
                 note = format!("{} -> {}", old, n);
                 l.method = n;
                 component = "method";
+            }
+            "method-case" => {
+                // method tokens are case-sensitive: `get` is not `GET`
+                let old = l.method.clone();
+                let mut b = old.clone().into_bytes();
+                let letters: Vec<usize> = (0..b.len()).filter(|i| b[*i].is_ascii_alphabetic()).collect();
+                if letters.is_empty() {
+                    return None;
+                }
+                if t.chance(2) {
+                    let i = letters[t.below(letters.len())];
+                    b[i] ^= 0x20;
+                } else {
+                    for i in letters {
+                        b[i] ^= 0x20;
+                    }
+                }
+                let n = String::from_utf8(b).ok()?;
+                note = format!("{} -> {}", old, n);
+                l.method = n;
+                component = "method";
+            }
+            "hdr-space-tab" => {
+                // an inner space of a header value becomes a horizontal tab (only runs of *spaces*
+                // collapse; a tab is an ordinary byte of the value)
+                let cand: Vec<usize> = (0..l.headers.len())
+                    .filter(|i| {
+                        let (n, v) = &l.headers[*i];
+                        !matches!(n.as_str(), "x-amz-date" | "date" | "x-amz-security-token" | "content-type" | "authorization") && v.contains(&b' ')
+                    })
+                    .collect();
+                if cand.is_empty() {
+                    return None;
+                }
+                let i = cand[t.below(cand.len())];
+                let spaces: Vec<usize> = (0..l.headers[i].1.len()).filter(|k| l.headers[i].1[*k] == b' ').collect();
+                let k = spaces[t.below(spaces.len())];
+                l.headers[i].1[k] = b'\t';
+                note = l.headers[i].0.clone();
+                component = "header";
+            }
+            "date-reoffset" => {
+                // the same digits under another UTC offset: another instant
+                let text = a.date_text.clone();
+                let b = text.as_bytes();
+                let tpos = b.iter().position(|c| *c == b'T' || *c == b't')?;
+                let zpos = if matches!(b.last(), Some(b'Z') | Some(b'z')) {
+                    b.len() - 1
+                } else {
+                    tpos + b[tpos..].iter().rposition(|c| *c == b'+' || *c == b'-')?
+                };
+                let mins = [1i64, 5, 10, 14, 15, 60, 90, 600, 840][t.below(9)];
+                let sign = if t.chance(2) {
+                    '-'
+                } else {
+                    '+'
+                };
+                let colon = if t.chance(2) {
+                    ":"
+                } else {
+                    ""
+                };
+                let nt = format!("{}{}{:02}{}{:02}", &text[..zpos], sign, mins / 60, colon, mins % 60);
+                let (_, inst) = refm::iso_parse(nt.as_bytes());
+                let inst = inst?;
+                if inst == a.instant_ns {
+                    return None;
+                }
+                if a.carrier == Carrier::Header {
+                    let pos = l.headers.iter().position(|(n, _)| n == "x-amz-date").or(l.headers.iter().position(|(n, _)| n == "date"))?;
+                    l.headers[pos].1 = nt.clone().into_bytes();
+                }
+                a.date_text = nt;
+                a.instant_ns = inst;
+                note = format!("{}{} min", sign, mins);
+                component = "date";
             }
             "path-byte" => {
                 if l.segs.is_empty() {
@@ -406,7 +485,8 @@ pub fn apply_logical(kind: &'static str, m: &mut Message, cx: &FaultCtx, t: &mut
             "cred-access-key" => {
                 let other: Vec<&Account> = cx.accounts.iter().filter(|x| x.access_key != a.access_key).collect();
                 a.access_key = if other.is_empty() || t.chance(3) {
-                    "AKIDNOSUCHKEY".into()
+                    // (an access key may itself look like an escape sequence: it is taken literally)
+                    ["AKIDNOSUCHKEY", "AKIDNOSUCHKEY", "AKID%2FNOSUCH", "AKID%252F"][t.below(4)].into()
                 } else {
                     other[t.below(other.len())].access_key.clone()
                 };
@@ -580,7 +660,8 @@ pub fn apply_logical(kind: &'static str, m: &mut Message, cx: &FaultCtx, t: &mut
     })
 }
 
-pub const DEFECT_KINDS: [&str; 18] = [
+pub const DEFECT_KINDS: [&str; 19] = [
+    "empty-signedheaders",
     "signed-name-case",
     "bad-path-escape",
     "path-climb",
@@ -609,7 +690,25 @@ pub const BAD_ESCAPES: [&[u8]; 16] = [
 pub fn corrupt_date(text: &str, t: &mut Tape) -> String {
     for _ in 0..8 {
         let mut s = text.as_bytes().to_vec();
-        match t.below(10) {
+        match t.below(11) {
+            10 => {
+                // a decimal digit that is not an ASCII digit (Arabic-Indic, Devanagari, fullwidth),
+                // sent as UTF-8: in the year or in any other field
+                let digits: Vec<usize> = (0..s.len()).filter(|i| s[*i].is_ascii_digit()).collect();
+                if !digits.is_empty() {
+                    let i = if t.chance(2) {
+                        digits[t.below(digits.len().min(4))]
+                    } else {
+                        digits[t.below(digits.len())]
+                    };
+                    let d = (s[i] - b'0') as u32;
+                    let base = [0x0660u32, 0x0966, 0xFF10, 0x06F0][t.below(4)];
+                    let c = char::from_u32(base + d).unwrap();
+                    let mut buf = [0u8; 4];
+                    let enc = c.encode_utf8(&mut buf).as_bytes().to_vec();
+                    s.splice(i..i + 1, enc);
+                }
+            }
             9 => {
                 // white space that header normalisation does not remove
                 let pad: &[u8] = [&b"\t"[..], b"\n", b" "][t.below(3)];
@@ -854,7 +953,16 @@ pub fn apply_defect(kind: &'static str, m: &mut Message, cx: &FaultCtx, t: &mut 
             if req.is_empty() {
                 return None;
             }
-            let drop = req[t.below(req.len())].clone();
+            let mut drop = req[t.below(req.len())].clone();
+            if kind == "unsign-required" && req.iter().any(|r| r == "host") && t.chance(2) {
+                // the service declared Host itself: signing :authority in its place satisfies the
+                // built-in host rule but not the declaration
+                drop = "host".into();
+                if !m.auth.signed.iter().any(|s| s == ":authority") {
+                    m.auth.signed.push(":authority".into());
+                    m.auth.signed.sort();
+                }
+            }
             m.auth.signed.retain(|s| *s != drop);
             if t.chance(2) {
                 // a longer name that merely begins with the required one does not satisfy it
@@ -862,6 +970,15 @@ pub fn apply_defect(kind: &'static str, m: &mut Message, cx: &FaultCtx, t: &mut 
                 m.auth.signed.sort();
             }
             // re-sign: the signature over what *is* signed is correct
+            let acct = cx.accounts.iter().find(|x| x.access_key == m.auth.access_key)?;
+            let secret = acct.secret.clone();
+            sign(&m.logical, &mut m.auth, &m.quirks, &secret);
+            m.origin_fp = fingerprint(m, cx.accounts);
+            Rule::Requirement
+        }
+        "empty-signedheaders" => {
+            // the list is present and empty: nothing is signed, not even host
+            m.auth.signed.clear();
             let acct = cx.accounts.iter().find(|x| x.access_key == m.auth.access_key)?;
             let secret = acct.secret.clone();
             sign(&m.logical, &mut m.auth, &m.quirks, &secret);
@@ -914,12 +1031,20 @@ pub fn apply_defect(kind: &'static str, m: &mut Message, cx: &FaultCtx, t: &mut 
         "arity" => {
             let c = m.auth.credential();
             let parts: Vec<&str> = c.split('/').collect();
-            m.quirks.credential_override = Some(match t.below(5) {
+            m.quirks.credential_override = Some(match t.below(10) {
                 0 => parts[..4].join("/"),
                 1 => format!("{}/extra", c),
                 2 => parts[0].to_string(),
                 3 => String::new(),
-                _ => format!("{}/", c),
+                4 => format!("{}/", c),
+                // six elements whose last four are the right scope
+                5 => format!("{}/extra/{}", parts[0], parts[1..].join("/")),
+                6 => format!("{}//{}", parts[0], parts[1..].join("/")),
+                // six elements whose first five are right
+                7 => format!("{}/{}", c, parts[4]),
+                // four elements, one of which spells a slash as an escape (taken literally)
+                8 => format!("{}%2F{}", parts[0], parts[1..].join("/")),
+                _ => format!("{}/{}%2F{}", parts[..3].join("/"), parts[3], parts[4]),
             });
             Rule::Arity
         }
